@@ -24,7 +24,7 @@ COMPONENTS = {"real": ["particle.c (add, remove paths, lookup table)", "tools.c 
               "simulated": ["heap placement policy (hostile allocator with audit after every op)", "wall clock"]}
 ASSUMPTIONS = ["documented semantics only: sorted removal shifts, unsorted removal moves the last particle into the hole, hybrid integrators force sorted removal, "
                "with a tree unsorted removal is deferred until the next tree update (order then unspecified), N_active decrements when a sorted removal hits an index below it"]
-PROBES = ["realloc_moved_particles", "stale_lookup_after_remove", "duplicate_hash_lookup", "zero_hash_lookup", "invalid_index_refused", "unknown_hash_refused",
+PROBES = ["array_filled_to_capacity", "realloc_moved_particles", "stale_lookup_after_remove", "duplicate_hash_lookup", "zero_hash_lookup", "invalid_index_refused", "unknown_hash_refused",
           "removal_refused_variational", "tree_deferred_removal", "hybrid_removal_after_steps", "remove_all_then_add", "last_particle_removed"]
 
 MODES = ["plain", "plain", "tree", "mercurius", "trace", "var", "nactive", "megno"]
@@ -46,6 +46,9 @@ def generate(rng, tier, index):
             ops.append(dict(op="add", hash=o.weighted([("unique", 6), ("dup", 2), ("zero", 2), ("string", 2)]), pick=o.randint(0, 500)))
         elif k == "add_many":
             ops.append(dict(op="add_many", n=o.choice([130, 140, 260])))
+            if o.chance(0.5):
+                ops[-1]["to"] = o.choice([128, 128, 256])
+                ops.append(dict(op="remove", index="valid", pick=o.randint(0, 500), keep_sorted=1))
         elif k == "remove":
             ops.append(dict(op="remove", index=o.weighted([("valid", 7), ("-1", 1), ("N", 1), ("N+5", 1), ("huge", 1)]), pick=o.randint(0, 500), keep_sorted=o.choice([0, 1])))
         elif k in ("remove_hash", "py_remove"):
@@ -74,7 +77,7 @@ def generate(rng, tier, index):
             at = hy.randint(0, len(ops))
             burst = [dict(op="steps", n=hy.randint(1, 3))] + [dict(op="remove", index="valid", pick=hy.randint(0, 500), keep_sorted=hy.choice([0, 1])) for _ in range(hy.randint(2, 5))]
             ops[at:at] = burst
-    return dict(mode=mode, n0=n0, ops=ops, alloc=rng.derive("a").choice([2, 2, 1]), seed=rng.derive("s").u64() % 10**9, **extra)
+    return dict(mode=mode, n0=n0, ops=ops, alloc=rng.derive("a").choice([2, 3, 3, 1]), seed=rng.derive("s").u64() % 10**9, **extra)
 
 
 STR_NAMES = ["earth", "mars", "venus", "jupiter", "pluto", "ceres", "io", "europa"]
@@ -305,7 +308,12 @@ def execute(case, ctx):
                 elif kind == "add_many":
                     if sim.N_var or len(model) > 400:
                         continue
-                    for j in range(op["n"]):
+                    nadd = op["n"]
+                    if op.get("to"):
+                        # fill the particle array exactly to its capacity (blocks of 128): the next order-preserving removal then shifts a FULL array
+                        nadd = op["to"] - len(model) if len(model) < op["to"] else 0
+                        probe("array_filled_to_capacity") if nadd else None
+                    for j in range(nadd):
                         next_hash[0] += 1
                         c_add(next_hash[0])
                 elif kind == "remove":
